@@ -11,6 +11,7 @@ from __future__ import annotations
 
 import json
 import re
+import traceback
 from pathlib import Path
 
 from harness import common, wiregen, wirerig
@@ -152,6 +153,10 @@ def outcome(S: wirerig.Session, body: bytes, model_line: str) -> tuple[str, dict
         return f'refused:{res["code"]}/{res["sub"]}', {'text': res['text']}, res
     if not res['json_valid']:
         return 'json-invalid', {'text': res['text'][res['text'].find('"message"') : res['text'].find('"message"') + 160]}, res
+    if res.get('report') is None:
+        # valid JSON that is not an update event this mapping can read: the reported event is not the message
+        i = res['text'].find('"message"')
+        return 'event-unreadable', {'error': res.get('unreadable', ''), 'text': res['text'][i : i + 300]}, res
     d = diff_reports(model, res['report'])
     if res['report'].get('other_families'):
         d = [x for x in d if x not in ('ann', 'wd')]
@@ -434,10 +439,8 @@ def run(ctx: Ctx) -> None:
     seen_sig: dict = {}
     ribref: list[dict] = [dict() for _ in sessions]
     n_since_clear = [0 for _ in sessions]
-    for c in cases:
-        if ctx.time_left() < 5:
-            ctx.notes.append(f'budget reached after {ctx.evaluations} cases')
-            break
+    def one(c: dict) -> None:
+        nonlocal drv
         S = sessions[c['s']]
         body = c['body']
         what, details, res = outcome(S, body, c['model'])
@@ -447,7 +450,7 @@ def run(ctx: Ctx) -> None:
         if what in ('model-refuses', 'family-not-negotiated'):
             ctx.count('skipped:' + what)
             # not a well-formed message under this shape; what ExaBGP does with it belongs to C03 / C08
-            continue
+            return
         model = wirerig.report_of_line(c['model'])
         for t in sorted(c['sem']['tags']) if 'sem' in c else []:
             ctx.count('tag:' + t)
@@ -512,16 +515,16 @@ def run(ctx: Ctx) -> None:
             what = rwhat
             ctx.count('adj-rib-in-compared')
         if not what:
-            continue
+            return
         # a failure of the oracle on the implementation
         ctx.count('fail:' + what.split(':')[0])
         if 'sem' in c:
-            presig = (what, tuple(sorted(t for t in c['sem']['tags'] if t.startswith(('as4', 'merge', 'vpn6', 'eor')))), S.asn4 if ('attr:2' in what or 'raised' in what) else None)
+            presig = (what, tuple(sorted(t for t in c['sem']['tags'] if t.startswith(('as4', 'merge', 'vpn6', 'eor', 'same-nexthop')))), S.asn4 if ('attr:2' in what or 'raised' in what) else None)
         else:
             presig = (what, c.get('name'))
         if presig in seen_sig:
             seen_sig[presig] += 1
-            continue
+            return
         seen_sig[presig] = 1
         if 'sem' in c and not what.startswith('rib'):
             if drv is None:
@@ -539,8 +542,34 @@ def run(ctx: Ctx) -> None:
             canon = {'what': 'json-invalid', 'event': 'end-of-rib'}
         key = json.dumps(canon, sort_keys=True)
         if any(json.dumps(f.canon, sort_keys=True) == key for f in ctx.failures):
-            continue
+            return
         ctx.failures.append(Failure('update-class', canon, replay_obj, f'{what}: {json.dumps(details, default=str)[:500]}'))
+
+    for c in cases:
+        if ctx.time_left() < 5:
+            ctx.notes.append(f'budget reached after {ctx.evaluations} cases')
+            break
+        try:
+            one(c)
+        except common.Infra:
+            raise
+        except Exception as e:  # noqa: BLE001 - the harness could not interpret what the implementation produced
+            # the correspondence broke ON THIS INPUT: report it with the input, not as an infrastructure error
+            tb = traceback.extract_tb(e.__traceback__)
+            here = [f for f in tb if '/harness/' in f.filename]
+            where = f'{Path(here[-1].filename).name}:{here[-1].name}' if here else 'unknown'
+            canon = {'what': 'harness-exception', 'exception': type(e).__name__, 'where': where}
+            sessions[c['s']].clear_rib()
+            ribref[c['s']] = {}
+            n_since_clear[c['s']] = 0
+            ctx.count('fail:harness-exception')
+            key = json.dumps(canon, sort_keys=True)
+            if not any(json.dumps(f.canon, sort_keys=True) == key for f in ctx.failures):
+                S = sessions[c['s']]
+                rp = {'shape': S.shape() | {'addpath': S.addpath, 'extnh': S.extnh}, 'body': c['body'].hex()}
+                if 'sem' in c:
+                    rp['sem_text'] = wiregen.render(c['sem'])[:2000]
+                ctx.failures.append(Failure('update-class', canon, rp, f'the harness could not interpret what the implementation produced for this input ({type(e).__name__}: {str(e)[:200]} at {where}): the correspondence is broken on it'))
     if drv is not None:
         drv.close()
     malformed_stream(ctx, sessions, [c for c in cases if c['origin'] == 'generated'], 300 if quick else 3000)
